@@ -32,7 +32,12 @@ Inductive key := KInt (z : Z) | KId (a : N) | KObj (o : obj).
 Inductive op :=
   | Append (o : obj) | Extend (os : list obj) | IAdd (os : list obj)
   | Insert (k : key) (o : obj) | SetItem (k : key) (o : obj) | DelItem (k : key)
-  | Pop (k : option key) | Remove (k : key) | Clear | Reassign (os : list obj) | Reverse.
+  | Pop (k : option key) | Remove (k : key) | Clear | Reassign (os : list obj) | Reverse
+  (* argument forms of the bulk operations: an iterable that raises before it is exhausted,
+     and iterables computed lazily from the list itself *)
+  | BulkFail            (* extend / += / attribute assignment with an iterable that raises *)
+  | ExtendSelf          (* L.extend(L) *)
+  | ReassignRev.        (* doc.lib = reversed(doc.lib) *)
 
 (* list.index(self, obj): first position holding that very object *)
 Definition pos_of_uid (l : list obj) (u : N) : option nat :=
@@ -110,6 +115,9 @@ Definition step (s : il) (o : op) : il * outcome ret :=
   | Clear => (IL [] [], Ok None)
   | Reassign xs => (of_list xs, Ok None)
   | Reverse => let l := rev (items s) in (IL l (reindex l), Ok None)
+  | BulkFail => (s, Raise PyOther)      (* the argument is copied into a list before anything is touched *)
+  | ExtendSelf => (IL (items s ++ items s) (fold_left addindex (items s) (index s)), Ok None)
+  | ReassignRev => (of_list (rev (items s)), Ok None)
   end.
 
 Definition run (s : il) (ops : list op) : il := fold_left (fun s o => fst (step s o)) ops s.
@@ -185,6 +193,9 @@ Definition list_step (l : list obj) (o : op) : list obj * outcome ret :=
   | Clear => ([], Ok None)
   | Reassign xs => (xs, Ok None)
   | Reverse => (rev l, Ok None)
+  | BulkFail => (l, Raise PyOther)
+  | ExtendSelf => (l ++ l, Ok None)
+  | ReassignRev => (rev l, Ok None)
   end.
 
 (* The coherence invariant: the dict answers exactly what the list says. *)
